@@ -270,19 +270,34 @@ Theorem C05_aggregates_fresh_after_accept_solution_state :
             s_aggs s' (a_key a) = a_read a (map (fresh tour value SC) (map rc_tour (s_routes s'))).
 Proof. exact aggregates_fresh_d. Qed.
 
-(* InsertionContext::restore / finalize_insertion_ctx = accept_solution_state, THEN remove_empty_routes: the aggregates are those
-   of ALL tours the solution held while the handlers ran - the tours without jobs dropped afterwards included (finding C05-F5
-   when there is one: C05_restore_counts_empty_tour_refuted) *)
+(* InsertionContext::restore / finalize_insertion_ctx BEFORE /repo 38e261f (`restore_d false` = accept_solution_state, THEN
+   remove_empty_routes): the aggregates are those of ALL tours the solution held while the handlers ran - the tours without jobs
+   dropped afterwards included (finding C05-F5, repaired: C05_restore_counts_empty_tour_refuted is the witness about this version) *)
 Theorem C05_restore_aggregates_of_the_tours_before_the_cleanup :
   forall tour job value svalue (SC : tour -> cache value) (is_empty : tour -> bool) (es : list (CacheF.entry tour job value svalue)) s,
   NoDup (route_keys tour job value svalue es) -> NoDup (agg_keys tour job value svalue es) ->
   (forall f, In (ERoute f) es -> Sound tour job value SC f) ->
   Forall (fun r => rc_stale r = false -> forall k, In k (good_from tour job value svalue (refreshes_d tour job value) [] es) -> key_ok tour value SC k r) (s_routes s) ->
-  let s' := restore_d tour job value svalue is_empty es s in
+  let s' := restore_d tour job value svalue false is_empty es s in
   map rc_tour (s_routes s') = filter (fun t => negb (is_empty t)) (map rc_tour (s_routes s)) /\
   forall a, In (EAgg a) es -> a_ext tour value svalue a -> In (a_key a) (good_aggs tour job value svalue (refreshes_d tour job value) [] es) ->
             s_aggs s' (a_key a) = a_read a (map (fresh tour value SC) (map rc_tour (s_routes s))).
 Proof. exact restore_aggs_d. Qed.
+
+(* restore / finalize_insertion_ctx AS THEY ARE since /repo 38e261f (`restore_d true`: remove_empty_routes, accept_solution_state,
+   remove_empty_routes): the tours of the result are the tours with jobs, none is stale, every good key is right, and every good
+   aggregate is the fold over exactly the tours that remain *)
+Theorem C05_restore_aggregates_fresh :
+  forall tour job value svalue (SC : tour -> cache value) (is_empty : tour -> bool) (es : list (CacheF.entry tour job value svalue)) s,
+  NoDup (route_keys tour job value svalue es) -> NoDup (agg_keys tour job value svalue es) ->
+  (forall f, In (ERoute f) es -> Sound tour job value SC f) ->
+  Forall (fun r => rc_stale r = false -> forall k, In k (good_from tour job value svalue (refreshes_d tour job value) [] es) -> key_ok tour value SC k r) (s_routes s) ->
+  let s' := restore_d tour job value svalue true is_empty es s in
+  map rc_tour (s_routes s') = filter (fun t => negb (is_empty t)) (map rc_tour (s_routes s)) /\
+  Forall (fun r' => rc_stale r' = false /\ forall k, In k (good_from tour job value svalue (refreshes_d tour job value) [] es) -> key_ok tour value SC k r') (s_routes s') /\
+  forall a, In (EAgg a) es -> a_ext tour value svalue a -> In (a_key a) (good_aggs tour job value svalue (refreshes_d tour job value) [] es) ->
+            s_aggs s' (a_key a) = a_read a (map (fresh tour value SC) (map rc_tour (s_routes s'))).
+Proof. exact restore_fixed_d. Qed.
 
 (* "objective values are a function of the tours only, two solutions with identical tours compare equal": whatever an objective
    reads after a hand-over - tours, good keys, good aggregates - coincides for two solutions with the same tours *)
@@ -342,6 +357,15 @@ Theorem C05_goal_handover_fresh : forall dur dist g, keys_ok dur dist g = true -
   forall k, In k (good_handover_aggs dur dist g) -> s_aggs s' k = spec_aggs dur dist g (map rc_tour (s_routes s')) k.
 Proof. exact goal_handover_fresh. Qed.
 
+Theorem C05_goal_restore_fresh : forall dur dist g, keys_ok dur dist g = true -> ideal_ok dur dist g = true ->
+  forall (is_empty : ftour -> bool) (s : sctx ftour fval sval),
+  Forall (fun r => rc_stale r = false -> forall k, In k (good_handover dur dist g) -> key_ok ftour fval (spec_cache dur dist g) k r) (s_routes s) ->
+  let s' := restore_d ftour fact fval sval true is_empty (goal_table dur dist g) s in
+  map rc_tour (s_routes s') = filter (fun t => negb (is_empty t)) (map rc_tour (s_routes s)) /\
+  Forall (fun r' => rc_stale r' = false /\ forall k, In k (good_handover dur dist g) -> key_ok ftour fval (spec_cache dur dist g) k r') (s_routes s') /\
+  forall k, In k (good_handover_aggs dur dist g) -> s_aggs s' k = spec_aggs dur dist g (map rc_tour (s_routes s')) k.
+Proof. exact goal_restore_fresh. Qed.
+
 Theorem C05_goal_objective_function_of_tours : forall dur dist (result : Type) g, keys_ok dur dist g = true -> ideal_ok dur dist g = true ->
   forall (s1 s2 : sctx ftour fval sval) (fitness : list (ftour * list (option fval)) * list (option sval) -> result),
   Forall (fun r => rc_stale r = false -> forall k, In k (good_handover dur dist g) -> key_ok ftour fval (spec_cache dur dist g) k r) (s_routes s1) ->
@@ -383,8 +407,13 @@ Theorem C05_handover_fresh_tour_order : forall dur dist s, HandoverInv dur dist 
   s_aggs s' A_ORDER = Some (SCount (fold_left (fun acc t => acc + tour_violations t) (map rc_tour (s_routes s')) 0)).
 Proof. exact handover_fresh_tour_order. Qed.
 
-(* work_balance.rs, objectives listed after the cost objective: the per-solution aggregate is the vector of the route estimates
-   computed from the tours alone (the per-route values themselves are NOT refreshed at hand-over: C05_work_balance_route_value_stale_refuted) *)
+(* work_balance.rs since /repo 5d6f1d2, objectives listed after the cost objective: the per-route values are right at hand-over
+   (before the fix they were never refreshed there: C05_work_balance_route_value_stale_refuted) *)
+Theorem C05_handover_fresh_work_balance_route_values : forall dur dist s, HandoverInv dur dist cfg_full s ->
+  Forall (fun r' => rc_stale r' = false /\ forall k, In k [K_BAL OActivities; K_BAL ODistance; K_BAL ODuration] -> key_ok ftour fval (spec_cache dur dist cfg_full) k r')
+         (s_routes (accept_solution_state_d ftour fact fval sval (goal_table dur dist cfg_full) s)).
+Proof. exact handover_fresh_work_balance_route_values. Qed.
+(* ... and the per-solution aggregate is the vector of the route estimates computed from the tours alone *)
 Theorem C05_handover_fresh_work_balance_aggregates : forall dur dist s, HandoverInv dur dist cfg_full s ->
   let s' := accept_solution_state_d ftour fact fval sval (goal_table dur dist cfg_full) s in
   forall o, In o [OActivities; ODistance; ODuration] ->
@@ -441,16 +470,25 @@ Theorem C05_insertion_keeps_tour_limits : forall dur dist ins j (r : rctx ftour 
 Proof. exact insertion_keeps_tour_limits. Qed.
 
 (* ---- the three findings about WorkBalanceState, on concrete tours (udur a b = |a - b|, udist = 2 |a - b|) ---- *)
-(* C05-F3: the per-route value has no solution-level refresh: a job leaves the tour (ruin), accept_solution_state runs, the tour is
-   flagged fresh, the cached value is the old one (2 activities; the tour has 1) *)
+(* C05-F3, the table BEFORE /repo 5d6f1d2 (regression mutant C05-17): the per-route value has no solution-level refresh: a job leaves
+   the tour (ruin), accept_solution_state runs, the tour is flagged fresh, the cached value is the old one (2 activities; the tour has 1) *)
 Theorem C05_work_balance_route_value_stale_refuted :
-  let es := goal_table udur udist cfg_activities in
+  let es := goal_table_before_5d6f1d2 udur udist cfg_activities in
   let s' := accept_solution_state_d ftour fact fval sval es
-              (mkS [route_mut ftour fval (drop_job 2) (wfresh cfg_activities wtour2)] (fun _ => None)) in
+              (mkS [route_mut ftour fval (drop_job 2) (wfresh_before cfg_activities wtour2)] (fun _ => None)) in
   exists r', s_routes s' = [r'] /\ rc_stale r' = false /\ rc_tour r' = wtour1 /\
              rc_state r' (K_BAL OActivities) = Some (VZ 2) /\
              spec_cache udur udist cfg_activities wtour1 (K_BAL OActivities) = Some (VZ 1).
 Proof. exact balance_route_value_stale. Qed.
+(* the same history on the table as it is: the value is the one of the tour *)
+Theorem C05_work_balance_route_value_repaired :
+  let es := goal_table udur udist cfg_activities in
+  let s' := accept_solution_state_d ftour fact fval sval es
+              (mkS [route_mut ftour fval (drop_job 2) (wfresh cfg_activities wtour2)] (fun _ => None)) in
+  exists r', s_routes s' = [r'] /\ rc_stale r' = false /\ rc_tour r' = wtour1 /\
+             rc_state r' (K_BAL OActivities) = Some (VZ 1) /\
+             spec_cache udur udist cfg_activities wtour1 (K_BAL OActivities) = Some (VZ 1).
+Proof. exact balance_route_value_repaired. Qed.
 
 (* C05-F4, per route: the distance balance listed BEFORE the cost objective reads the total distance before TransportState refreshes
    it: 0 on a rebuilt tour (distance 12), the distance before the insertion (12) after an insertion (20) *)
@@ -474,15 +512,37 @@ Theorem C05_work_balance_order_aggregate_refuted :
   spec_aggs udur udist cfg_max_load [wtour1] (K_BAL OMaxLoad) = Some (SVec [VQ 2 10]).
 Proof. exact balance_order_aggregate. Qed.
 
-(* C05-F5: restore: the aggregate counts the tour that was emptied and is dropped afterwards ([2; 0]; the tours give [2]) *)
+(* C05-F5, restore BEFORE /repo 38e261f (regression mutant C05-18): the aggregate counts the tour that was emptied and is dropped
+   afterwards ([2; 0]; the tours give [2]) *)
 Theorem C05_restore_counts_empty_tour_refuted :
   let es := goal_table udur udist cfg_activities in
-  let s' := restore_d ftour fact fval sval no_jobs es
+  let s' := restore_d ftour fact fval sval false no_jobs es
               (mkS [wfresh cfg_activities wtour2; route_mut ftour fval (drop_job 1) (wfresh cfg_activities wtour1)] (fun _ => None)) in
   map rc_tour (s_routes s') = [wtour2] /\
   s_aggs s' (K_BAL OActivities) = Some (SVec [VZ 2; VZ 0]) /\
   spec_aggs udur udist cfg_activities [wtour2] (K_BAL OActivities) = Some (SVec [VZ 2]).
 Proof. exact restore_counts_empty_tour. Qed.
+(* the same with restore as it is *)
+Theorem C05_restore_repaired :
+  let es := goal_table udur udist cfg_activities in
+  let s' := restore_d ftour fact fval sval true no_jobs es
+              (mkS [wfresh cfg_activities wtour2; route_mut ftour fval (drop_job 1) (wfresh cfg_activities wtour1)] (fun _ => None)) in
+  map rc_tour (s_routes s') = [wtour2] /\
+  s_aggs s' (K_BAL OActivities) = Some (SVec [VZ 2]) /\
+  spec_aggs udur udist cfg_activities [wtour2] (K_BAL OActivities) = Some (SVec [VZ 2]).
+Proof. exact restore_repaired. Qed.
+
+(* C05-F6 (open): what 38e261f does not cover - a tour emptied BY A STATE HANDLER during accept_solution_state (an obsolete reload
+   marker, the tour's last activity, is taken out by remove_trivial_markers; the round restarts) is counted by the aggregates of the
+   restarted round and dropped afterwards ([2; 0]; the remaining tour gives [2]) *)
+Theorem C05_restore_counts_tour_emptied_by_a_handler_refuted :
+  let es := goal_table udur udist cfg_activities in
+  let s' := restore_with_restart drop_markers es
+              (mkS [wfresh cfg_activities wtour2; wfresh cfg_activities wtourm] (fun _ => None)) in
+  map rc_tour (s_routes s') = [wtour2] /\
+  s_aggs s' (K_BAL OActivities) = Some (SVec [VZ 2; VZ 0]) /\
+  spec_aggs udur udist cfg_activities [wtour2] (K_BAL OActivities) = Some (SVec [VZ 2]).
+Proof. exact restore_counts_tour_emptied_by_handler. Qed.
 
 (* non-vacuity of the hand-over invariant and of the side conditions: cfg_full passes both checks; a stale context with an empty
    cache satisfies the invariant, so does the context accept_solution_state makes of it, which holds the values *)
